@@ -674,6 +674,220 @@ OPS.update({
     "ckks_all_ops_with_atk": (sh_ckks_all, REF, False, 8),
 })
 
+
+# ------------------------------------------------------------------------------------------------
+# coverage accounting: every `*_tmp_bytes` query found by tools/list_tmp_bytes.py must appear here
+#   ("ops", [entries of OPS])      modelled: formula tied, the listed operations run / compared
+#   ("alias", "<query>")           returns the value of another query without an operation of its own (counted once, with it)
+#   ("internal", [entries], why)   internal helper without public operation; modelled as `tb…`, tied through the listed callers
+#   ("remainder", why)             not modelled, with the reason
+# A query found in the sources and missing here is reported as UNMODELLED (a new query shows up as uncovered).
+# ------------------------------------------------------------------------------------------------
+def _ops(*names):
+    return ("ops", list(names))
+
+
+COVERS = {
+    # poulpy-hal / back ends
+    "vec_znx_normalize_tmp_bytes": _ops("vec_znx_normalize", "vec_znx_normalize_assign"),
+    "vec_znx_lsh_tmp_bytes": _ops("vec_znx_lsh", "vec_znx_lsh_assign"),
+    "vec_znx_rsh_tmp_bytes": _ops("vec_znx_rsh", "vec_znx_rsh_assign"),
+    "vec_znx_rotate_assign_tmp_bytes": _ops("vec_znx_rotate_assign"),
+    "vec_znx_automorphism_assign_tmp_bytes": _ops("vec_znx_automorphism_assign"),
+    "vec_znx_mul_xp_minus_one_assign_tmp_bytes": _ops("vec_znx_mul_xp_minus_one_assign"),
+    "vec_znx_split_ring_tmp_bytes": _ops("vec_znx_split_ring"),
+    "vec_znx_merge_rings_tmp_bytes": _ops("vec_znx_merge_rings"),
+    "vec_znx_big_normalize_tmp_bytes": _ops("vec_znx_big_normalize"),
+    "vec_znx_big_automorphism_assign_tmp_bytes": _ops("vec_znx_big_automorphism_assign"),
+    "vec_znx_idft_apply_tmp_bytes": _ops("vec_znx_idft_apply"),
+    "vmp_prepare_tmp_bytes": _ops("vmp_prepare"),
+    "vmp_apply_dft_tmp_bytes": _ops("vmp_apply_dft"),
+    "vmp_apply_dft_to_dft_tmp_bytes": _ops("vmp_apply_dft_to_dft"),
+    "cnv_prepare_left_tmp_bytes": _ops("cnv_prepare_left", "glwe_mul_plain"),
+    "cnv_prepare_right_tmp_bytes": _ops("cnv_prepare_right", "glwe_mul_plain"),
+    "cnv_prepare_self_tmp_bytes": _ops("cnv_prepare_self", "glwe_tensor_square_apply"),
+    "cnv_apply_dft_tmp_bytes": _ops("cnv_apply_dft", "glwe_mul_plain", "glwe_tensor_apply"),
+    "cnv_by_const_apply_tmp_bytes": _ops("cnv_by_const_apply", "glwe_mul_const"),
+    "cnv_pairwise_apply_dft_tmp_bytes": _ops("cnv_pairwise_apply_dft", "glwe_tensor_apply"),
+    "rsh_tmp_bytes": ("remainder", "`VecZnx::<Vec<u8>>::rsh_tmp_bytes(n)` (poulpy-hal/src/layouts/vec_znx.rs): a static helper no operation "
+                                   "or query calls; the right-shift operations use vec_znx_rsh_tmp_bytes"),
+    # poulpy-core: encryption / decryption
+    "lwe_encrypt_sk_tmp_bytes": _ops("lwe_encrypt_sk"),
+    "lwe_decrypt_tmp_bytes": _ops("lwe_decrypt"),
+    "glwe_encrypt_sk_tmp_bytes": _ops("glwe_encrypt_sk", "glwe_encrypt_zero_sk"),
+    "glwe_encrypt_pk_tmp_bytes": _ops("glwe_encrypt_pk", "glwe_encrypt_zero_pk"),
+    "glwe_decrypt_tmp_bytes": _ops("glwe_decrypt"),
+    "glwe_compressed_encrypt_sk_tmp_bytes": _ops("glwe_compressed_encrypt_sk"),
+    "gglwe_encrypt_sk_tmp_bytes": _ops("gglwe_encrypt_sk"),
+    "gglwe_compressed_encrypt_sk_tmp_bytes": _ops("gglwe_compressed_encrypt_sk"),
+    "ggsw_encrypt_sk_tmp_bytes": _ops("ggsw_encrypt_sk"),
+    "ggsw_compressed_encrypt_sk_tmp_bytes": _ops("ggsw_compressed_encrypt_sk"),
+    "glwe_secret_tensor_prepare_tmp_bytes": _ops("glwe_secret_tensor_prepare"),
+    "glwe_switching_key_encrypt_sk_tmp_bytes": _ops("glwe_switching_key_encrypt_sk"),
+    "glwe_switching_key_compressed_encrypt_sk_tmp_bytes": _ops("glwe_switching_key_compressed_encrypt_sk"),
+    "glwe_switching_key_encrypt_pk_tmp_bytes": ("remainder", "`unimplemented!()`: there is no formula and no operation (poulpy-core/src/encryption/glwe_switching_key.rs)"),
+    "glwe_automorphism_key_encrypt_sk_tmp_bytes": _ops("glwe_automorphism_key_encrypt_sk"),
+    "glwe_automorphism_key_compressed_encrypt_sk_tmp_bytes": _ops("glwe_automorphism_key_compressed_encrypt_sk"),
+    "glwe_automorphism_key_encrypt_pk_tmp_bytes": ("remainder", "`unimplemented!()`: there is no formula and no operation (poulpy-core/src/encryption/glwe_automorphism_key.rs)"),
+    "glwe_tensor_key_encrypt_sk_tmp_bytes": _ops("glwe_tensor_key_encrypt_sk"),
+    "glwe_tensor_key_compressed_encrypt_sk_tmp_bytes": _ops("glwe_tensor_key_compressed_encrypt_sk"),
+    "gglwe_to_ggsw_key_encrypt_sk_tmp_bytes": _ops("gglwe_to_ggsw_key_encrypt_sk"),
+    "gglwe_to_ggsw_key_compressed_encrypt_sk_tmp_bytes": _ops("gglwe_to_ggsw_key_compressed_encrypt_sk"),
+    "lwe_switching_key_encrypt_sk_tmp_bytes": _ops("lwe_switching_key_encrypt_sk"),
+    "lwe_to_glwe_key_encrypt_sk_tmp_bytes": _ops("lwe_to_glwe_key_encrypt_sk"),
+    "glwe_to_lwe_key_encrypt_sk_tmp_bytes": _ops("glwe_to_lwe_key_encrypt_sk"),
+    # poulpy-core: prepared layouts
+    "gglwe_prepare_tmp_bytes": _ops("gglwe_prepare"),
+    "ggsw_prepare_tmp_bytes": _ops("ggsw_prepare"),
+    "glwe_switching_key_prepare_tmp_bytes": _ops("glwe_switching_key_prepare"),
+    "glwe_automorphism_key_prepare_tmp_bytes": _ops("glwe_automorphism_key_prepare"),
+    "prepare_tensor_key_tmp_bytes": _ops("prepare_tensor_key"),
+    "gglwe_to_ggsw_key_prepare_tmp_bytes": _ops("gglwe_to_ggsw_key_prepare"),
+    "lwe_switching_key_prepare_tmp_bytes": _ops("lwe_switching_key_prepare"),
+    "lwe_to_glwe_key_prepare_tmp_bytes": _ops("lwe_to_glwe_key_prepare"),
+    "glwe_to_lwe_key_prepare_tmp_bytes": _ops("glwe_to_lwe_key_prepare"),
+    # poulpy-core: operations
+    "glwe_normalize_tmp_bytes": _ops("glwe_normalize", "glwe_normalize_assign"),
+    "glwe_shift_tmp_bytes": _ops("glwe_rsh", "glwe_lsh", "glwe_lsh_assign"),
+    "glwe_rotate_tmp_bytes": _ops("glwe_rotate_assign", "glwe_mul_xp_minus_one_assign"),
+    "ggsw_rotate_tmp_bytes": _ops("ggsw_rotate_assign"),
+    "glwe_mul_const_tmp_bytes": _ops("glwe_mul_const", "glwe_mul_const_assign"),
+    "glwe_mul_plain_tmp_bytes": _ops("glwe_mul_plain", "glwe_mul_plain_assign"),
+    "glwe_tensor_apply_tmp_bytes": _ops("glwe_tensor_apply", "glwe_tensor_apply_add_assign"),
+    "glwe_tensor_square_apply_tmp_bytes": _ops("glwe_tensor_square_apply"),
+    "glwe_tensor_relinearize_tmp_bytes": _ops("glwe_tensor_relinearize"),
+    "glwe_tensor_decrypt_tmp_bytes": _ops("glwe_tensor_decrypt"),
+    "glwe_keyswitch_tmp_bytes": _ops("glwe_keyswitch", "glwe_keyswitch_assign"),
+    "glwe_keyswitch_internal_tmp_bytes": ("internal", ["glwe_keyswitch", "glwe_automorphism_add"], "`pub(crate)` helper: `tbKsInternal`, its tree carries the assertion"),
+    "gglwe_product_dft_tmp_bytes": ("internal", ["glwe_keyswitch", "ggsw_expand_row", "glwe_tensor_relinearize"], "helper of the key switch: `tbGglweProduct`, its tree carries the assertion"),
+    "glwe_external_product_tmp_bytes": _ops("glwe_external_product", "glwe_external_product_assign"),
+    "glwe_external_product_internal_tmp_bytes": ("internal", ["glwe_external_product", "cmux", "cswap"], "helper of the external product: `tbExtInternal`, its tree carries the assertion"),
+    "gglwe_keyswitch_tmp_bytes": _ops("gglwe_keyswitch", "gglwe_keyswitch_assign"),
+    "gglwe_external_product_tmp_bytes": _ops("gglwe_external_product", "gglwe_external_product_assign"),
+    "ggsw_external_product_tmp_bytes": _ops("ggsw_external_product", "ggsw_external_product_assign"),
+    "ggsw_keyswitch_tmp_bytes": _ops("ggsw_keyswitch", "ggsw_keyswitch_assign"),
+    "ggsw_automorphism_tmp_bytes": _ops("ggsw_automorphism", "ggsw_automorphism_assign"),
+    "ggsw_from_gglwe_tmp_bytes": _ops("ggsw_from_gglwe"),
+    "ggsw_expand_rows_tmp_bytes": _ops("ggsw_expand_row"),
+    "glwe_automorphism_tmp_bytes": _ops("glwe_automorphism", "glwe_automorphism_assign", "glwe_automorphism_add", "glwe_automorphism_sub",
+                                        "glwe_automorphism_sub_negate"),
+    "glwe_automorphism_key_automorphism_tmp_bytes": _ops("atk_automorphism", "atk_automorphism_assign"),
+    "glwe_trace_tmp_bytes": _ops("glwe_trace"),
+    "glwe_trace_assign_tmp_bytes": _ops("glwe_trace_assign"),
+    "glwe_pack_tmp_bytes": _ops("glwe_pack"),
+    "glwe_packer_tmp_bytes": _ops("glwe_packer_add"),
+    "glwe_from_lwe_tmp_bytes": _ops("glwe_from_lwe"),
+    "lwe_from_glwe_tmp_bytes": _ops("lwe_from_glwe"),
+    "lwe_keyswitch_tmp_bytes": _ops("lwe_keyswitch"),
+    "glwe_noise_tmp_bytes": _ops("glwe_noise"),
+    "gglwe_noise_tmp_bytes": _ops("gglwe_noise"),
+    "ggsw_noise_tmp_bytes": _ops("ggsw_noise"),
+    # poulpy-bin-fhe
+    "cmux_tmp_bytes": _ops("cmux"),
+    "cswap_tmp_bytes": _ops("cswap"),
+    "execute_bdd_circuit_tmp_bytes": _ops("execute_bdd"),
+    "execute_bdd_circuit_2w_to_1w_tmp_bytes": _ops("bdd_2w_to_1w"),
+    "execute_bdd_circuit_2w_to_1w_multi_thread_tmp_bytes": _ops("bdd_2w_to_1w"),
+    "$method_name_tmp_bytes": ("alias", "execute_bdd_circuit_2w_to_1w_tmp_bytes"),
+    "$method_name_multi_thread_tmp_bytes": ("alias", "execute_bdd_circuit_2w_to_1w_multi_thread_tmp_bytes"),
+    "blind_rotation_execute_tmp_bytes": _ops("blind_rotation_execute"),
+    "execute_tmp_bytes": ("alias", "blind_rotation_execute_tmp_bytes"),
+    "blind_rotation_key_encrypt_sk_tmp_bytes": _ops("blind_rotation_key_encrypt_sk"),
+    "encrypt_sk_tmp_bytes": _ops("fhe_uint_encrypt_sk", "blind_rotation_key_encrypt_sk"),
+    "blind_rotation_key_compressed_encrypt_sk_tmp_bytes": _ops("blind_rotation_key_compressed_encrypt_sk"),
+    "blind_rotation_key_prepare_tmp_bytes": _ops("blind_rotation_key_prepare"),
+    "prepare_tmp_bytes": ("alias", "blind_rotation_key_prepare_tmp_bytes"),
+    "circuit_bootstrapping_execute_tmp_bytes": _ops("circuit_bootstrapping_execute"),
+    "circuit_bootstrapping_key_encrypt_sk_tmp_bytes": _ops("circuit_bootstrapping_key_encrypt_sk"),
+    "circuit_bootstrapping_key_prepare_tmp_bytes": _ops("circuit_bootstrapping_key_prepare"),
+    "bdd_key_encrypt_sk_tmp_bytes": _ops("bdd_key_encrypt_sk"),
+    "prepare_bdd_key_tmp_bytes": _ops("prepare_bdd_key"),
+    "fhe_uint_prepare_tmp_bytes": _ops("fhe_uint_prepare"),
+    "decrypt_tmp_bytes": _ops("fhe_uint_decrypt"),
+    "glwe_blind_rotation_tmp_bytes": _ops("glwe_blind_rotation"),
+    "ggsw_to_ggsw_blind_rotation_tmp_bytes": _ops("ggsw_to_ggsw_blind_rotation"),
+    "scalar_to_ggsw_blind_rotation_tmp_bytes": _ops("scalar_to_ggsw_blind_rotation"),
+    "glwe_blind_selection_tmp_bytes": _ops("glwe_blind_selection"),
+    "glwe_blind_retrieval_tmp_bytes": _ops("glwe_blind_retrieval"),
+    "retrieve_tmp_bytes": _ops("retrieve"),
+    # poulpy-ckks
+    "ckks_encrypt_sk_tmp_bytes": _ops("ckks_encrypt_sk"),
+    "ckks_decrypt_tmp_bytes": _ops("ckks_decrypt"),
+    "ckks_add_tmp_bytes": _ops("ckks_shift_norm"),
+    "ckks_sub_tmp_bytes": _ops("ckks_pt_vec_znx"),
+    "ckks_add_pt_const_tmp_bytes": _ops("ckks_shift_norm"),
+    "ckks_sub_pt_const_tmp_bytes": _ops("ckks_shift_norm"),
+    "ckks_add_pt_vec_znx_tmp_bytes": _ops("ckks_pt_vec_znx"),
+    "ckks_sub_pt_vec_znx_tmp_bytes": _ops("ckks_pt_vec_znx"),
+    "ckks_add_pt_vec_rnx_tmp_bytes": _ops("ckks_pt_vec_rnx"),
+    "ckks_sub_pt_vec_rnx_tmp_bytes": _ops("ckks_pt_vec_rnx"),
+    "ckks_neg_tmp_bytes": _ops("ckks_shift"),
+    "ckks_mul_pow2_tmp_bytes": _ops("ckks_shift"),
+    "ckks_div_pow2_tmp_bytes": _ops("ckks_shift"),
+    "ckks_rescale_tmp_bytes": _ops("ckks_shift"),
+    "ckks_align_tmp_bytes": _ops("ckks_shift"),
+    "ckks_extract_pt_znx_tmp_bytes": _ops("ckks_extract_pt"),
+    "ckks_rotate_tmp_bytes": _ops("ckks_rotate"),
+    "ckks_conjugate_tmp_bytes": _ops("ckks_rotate"),
+    "ckks_mul_tmp_bytes": _ops("ckks_mul", "glwe_tensor_apply", "glwe_tensor_relinearize"),
+    "ckks_square_tmp_bytes": _ops("ckks_square", "glwe_tensor_square_apply", "glwe_tensor_relinearize"),
+    "ckks_mul_pt_vec_znx_tmp_bytes": _ops("ckks_mul_pt_vec_znx", "glwe_mul_plain"),
+    "ckks_mul_pt_vec_rnx_tmp_bytes": _ops("ckks_mul_pt_vec_rnx", "glwe_mul_plain"),
+    "ckks_mul_pt_const_tmp_bytes": _ops("ckks_mul_pt_const", "glwe_mul_const"),
+    "ckks_mul_add_ct_tmp_bytes": _ops("ckks_composite_ct"),
+    "ckks_mul_sub_ct_tmp_bytes": _ops("ckks_composite_ct"),
+    "ckks_mul_add_pt_vec_znx_tmp_bytes": _ops("ckks_composite_pt_vec_znx"),
+    "ckks_mul_sub_pt_vec_znx_tmp_bytes": _ops("ckks_composite_pt_vec_znx"),
+    "ckks_dot_product_pt_vec_znx_tmp_bytes": _ops("ckks_composite_pt_vec_znx"),
+    "ckks_mul_add_pt_vec_rnx_tmp_bytes": _ops("ckks_composite_pt_vec_rnx"),
+    "ckks_mul_sub_pt_vec_rnx_tmp_bytes": _ops("ckks_composite_pt_vec_rnx"),
+    "ckks_dot_product_pt_vec_rnx_tmp_bytes": _ops("ckks_composite_pt_vec_rnx"),
+    "ckks_mul_add_pt_const_tmp_bytes": _ops("ckks_composite_pt_const"),
+    "ckks_mul_sub_pt_const_tmp_bytes": _ops("ckks_composite_pt_const"),
+    "ckks_dot_product_pt_const_tmp_bytes": _ops("ckks_composite_pt_const"),
+    "ckks_add_many_tmp_bytes": ("alias", "ckks_add_tmp_bytes"),
+    "ckks_mul_many_tmp_bytes": _ops("ckks_mul_many"),
+    "ckks_dot_product_ct_tmp_bytes": _ops("ckks_dot_product_ct"),
+    "ckks_all_ops_tmp_bytes": _ops("ckks_all_ops"),
+    "ckks_all_ops_with_atk_tmp_bytes": _ops("ckks_all_ops_with_atk"),
+}
+
+
+def coverage(repo):
+    """(report dict, problems) from the queries found in the sources and COVERS"""
+    import importlib.util
+    import os
+    here = os.path.dirname(os.path.dirname(os.path.abspath(__file__)))
+    spec = importlib.util.spec_from_file_location("list_tmp_bytes", os.path.join(here, "tools", "list_tmp_bytes.py"))
+    mod = importlib.util.module_from_spec(spec)
+    spec.loader.exec_module(mod)
+    found = mod.scan(repo)
+    problems = []
+    rep = {"total": len(found), "modelled": 0, "aliases": {}, "internal": {}, "remainder": {}, "unmodelled": [], "stale": []}
+    for q in sorted(found):
+        c = COVERS.get(q)
+        if c is None:
+            rep["unmodelled"].append(q)
+            continue
+        if c[0] == "ops":
+            missing = [o for o in c[1] if o not in OPS]
+            if missing:
+                problems.append(f"COVERS[{q}] names unknown operations {missing}")
+            rep["modelled"] += 1
+        elif c[0] == "alias":
+            if c[1] not in COVERS or COVERS[c[1]][0] not in ("ops", "internal"):
+                problems.append(f"COVERS[{q}] is an alias of {c[1]}, which is not modelled")
+            rep["aliases"][q] = c[1]
+        elif c[0] == "internal":
+            rep["internal"][q] = {"tied_through": c[1], "why": c[2]}
+            rep["modelled"] += 1
+        elif c[0] == "remainder":
+            rep["remainder"][q] = c[1]
+    rep["stale"] = sorted(q for q in COVERS if q not in found)
+    rep["distinct_after_aliases"] = rep["total"] - len(rep["aliases"])
+    return rep, problems
+
+
 USES_VMP = {o for o in OPS if o.startswith("vmp_") or any(w in o for w in ("keyswitch", "external_product", "automorphism", "trace", "cmux", "bdd", "from_lwe", "from_glwe", "ggsw_from", "expand", "pack", "relinearize", "cswap"))}
 
 
@@ -754,6 +968,19 @@ def run(ctx):
     if binp is None or drv is None:
         ctx.violation("C12 machinery does not build", {"broken": broken[:10]}, False)
         return ctx.finish(rule="n/a")
+
+    # ---- coverage accounting: every *_tmp_bytes query of the six crates against COVERS
+    cov, cov_problems = coverage(common.REPO)
+    broken += cov_problems
+    ctx.cov["tmp_bytes_queries"] = cov
+    ctx.log(f"tmp_bytes queries: modelled {cov['modelled']}/{cov['total']} (+{len(cov['aliases'])} pure aliases, "
+            f"{len(cov['remainder'])} justified remainder), unmodelled: {cov['unmodelled'] or 'none'}")
+    if cov["unmodelled"]:
+        ctx.violation("scratch-size queries of the library that C12 does not model: " + ", ".join(cov["unmodelled"]),
+                      {"unmodelled": cov["unmodelled"], "how": "add the query to COVERS in vlib/c12.py with the operations that model it"},
+                      False, key="tmp-bytes-query:unmodelled")
+    if cov["stale"]:
+        ctx.log("COVERS entries without a query in the sources (renamed or removed): " + ", ".join(cov["stale"]))
 
     # ---- compiled circuit widths (per-thread size of execute_bdd depends on max_state_size)
     rc, out, err = common.run([binp, "circuits"])
